@@ -1,9 +1,13 @@
 #!/bin/bash
-# Builds the verification framework offline from files on disk and warms the Go build cache.
+# Builds the verification framework offline from files on disk and warms the Go build cache
+# (including the -race, vfs/cgo, scaled-ltx and overlay-rewritten variants, whose first build is slow).
 set -eu
 cd "$(dirname "$0")"
 export GOFLAGS=-mod=mod GOPROXY=off
 mkdir -p bin evidence
 make -C killat >/dev/null
 ./tools/build.sh /repo "$(pwd)/harness" "$(pwd)/bin/lsmc"
+LSMC_TAGS=vfs ./tools/build.sh /repo "$(pwd)/harness" "$(pwd)/bin/lsmc-vfs"
+./tools/build_c17.sh /repo "$(pwd)/bin/lsmc-c17"
+./tools/build_c12.sh /repo "$(pwd)/bin/lsmc-c12"
 echo "setup ok"
